@@ -74,6 +74,16 @@ def token_bbans(spec: dict, rng: random.Random) -> list[str]:
     return out
 
 
+LABELS = ["IBAN", "IBAN ", "IBAN: ", "iban ", "IBAN:", "IBAN\t", "BIC ", "BIC: ", "SWIFT ", "BBAN ", "IBAN NO. ", "Iban "]
+
+
+def labelled(text: str) -> list[str]:
+    """The value as it is often printed: with a label in front (or behind).  None of these is the value."""
+    out = [lab + text for lab in LABELS]
+    out += [text + " IBAN", text + "IBAN", "(" + text + ")", text + ".", "IBAN" + text.replace(" ", ""), " IB AN " + text]
+    return out
+
+
 def char_of(cls: str, rng: random.Random) -> str:
     return rng.choice(cls)
 
